@@ -404,7 +404,7 @@ pub fn execute(t: &Trace, with_child: bool, passthrough_child: bool) -> C09Out {
         let r = on_thread(Some(kr.next()), kr.next(), hist, move || {
             let mut e = Engine::new(opt);
             let tv: Vec<&str> = tg.iter().map(|s| s.as_str()).collect();
-            e.use_tags(&tv);
+            seams::track(|| e.use_tags(&tv));
             match hist {
                 0 => {
                     if seams::track(|| e.deserialize(&b[..b.len() / 2])).is_ok() {
@@ -424,7 +424,7 @@ pub fn execute(t: &Trace, with_child: bool, passthrough_child: bool) -> C09Out {
                     if seams::track(|| e.deserialize(&[])).is_ok() {
                         return Err("an empty buffer was accepted".to_string());
                     }
-                    e.enable_tags(&[]);
+                    seams::track(|| e.enable_tags(&[]));
                     return e.serialize_raw().map_err(|e| format!("{:?}", e));
                 }
             }
